@@ -483,6 +483,7 @@ func configs() []cfg {
 		{D: 1, Batches: 2, Slots: 1, Merge: 1, MaxReq: 1, Elapsed: 3 * time.Second, Ticks: 2, Emit: true},
 		{D: 1, Batches: 1, Slots: 1, Merge: 1, MaxReq: 1, Elapsed: 3 * time.Second, Shutdown: true},
 		{D: 1, Batches: 1, Slots: 2, Merge: 2, MaxReq: 2, Elapsed: 3 * time.Second, Shutdown: true},
+		{D: 1, Batches: 1, Slots: 1, Merge: 1, MaxReq: 1, Elapsed: 3 * time.Second, Failures: 1, Shutdown: true},
 		// two compressed bodies of one flush in flight together, one of them retried
 		{D: 1, Batches: 1, PerBatch: 2, Slots: 1, Merge: 1, MaxReq: 2, Elapsed: 3 * time.Second, DynHdr: true, Failures: 1, Ticks: 1, Compress: true},
 	}
